@@ -16,7 +16,7 @@ from . import refcodec as R
 from .realnet import RealScenario, Timeout, Garbled
 
 S6A = 16777251
-OUTCOMES = ["answer", "answer-5012", "answer-3002-E-preset", "answer-experimental", "raise", "none", "string", "request-object"]
+OUTCOMES = ["answer", "answer-5012", "answer-3002-E-preset", "answer-experimental", "raise", "raise-bare", "none", "string", "request-object"]
 
 YAML = """api_version: v1
 name: VERIF
@@ -81,6 +81,8 @@ def app_case(seed, nreq=40, ncallers=5, rounds=3, judge="dispatch"):
             mk = DiameterAVP(code=99990, flags=0, data=k.to_bytes(4, "big"))
             if out == "raise":
                 raise RuntimeError("handler failure %d" % k)
+            if out == "raise-bare":
+                raise NotImplementedError
             if out == "none":
                 return None
             if out == "string":
@@ -154,7 +156,7 @@ def app_case(seed, nreq=40, ncallers=5, rounds=3, judge="dispatch"):
                 problems.append(("decoration", "request %d (%s): answer has command %d application %d" % (k, out, m.code, m.app_id)))
             if sid != sid_req:
                 problems.append(("both", "request %d (%s): answer Session-Id %r, request %r" % (k, out, sid, sid_req)))
-            if out in ("raise", "none", "string", "request-object"):
+            if out in ("raise", "raise-bare", "none", "string", "request-object"):
                 if rcs != [5012]:
                     problems.append(("dispatch", "request %d (%s): fallback Result-Code %r" % (k, out, rcs)))
                 dest = {a.code: a.value for a in m.avps}
